@@ -105,8 +105,10 @@ MergeCfi(cs) ==
          <<sorted[k], FlattenSeq([i \in 1..Len(SelectSeq(cs, LAMBDA c : c[1] = sorted[k])) |->
                                      SelectSeq(cs, LAMBDA c : c[1] = sorted[k])[i][2]])>>]
 
-MkBlock(i, nb, tpl, tgtIdx, layout, endSym, annMode, annAt, cl, noSym, al, ld) ==
+MkBlock(i, nb, tpl, tgtIdx, layout, endSym, annMode, annAt, cl0, noSym, al, ld) ==
   LET units == TemplateUnits(tpl, i, BName(tgtIdx))
+      \* "proc_first" arrives here as "proc_each" for the first code block and "none" for the rest
+      cl == cl0
       f == IF IsData(tpl) THEN "" ELSE FnOf(layout, i, nb)
   IN  [kind |-> IF IsData(tpl) THEN "data" ELSE "code",
        units |-> units,
@@ -144,7 +146,7 @@ ShapeParams ==
      /\ (p.layout \in {"split", "tail"} => p.nb >= 2 /\ ~IsData(p.tpl[2]))
      /\ (p.layout \in {"one", "split"} => ~IsData(p.tpl[1]))
      /\ (p.cl \in {"proc_all", "proc_rs"} => ~IsData(p.tpl[1]) /\ ~IsData(p.tpl[p.nb]))
-     /\ (p.cl = "proc_each" => \E i \in 1..p.nb : ~IsData(p.tpl[i]))
+     /\ (p.cl \in {"proc_each", "proc_first"} => \E i \in 1..p.nb : ~IsData(p.tpl[i]))
      /\ (p.cl = "proc_rs" /\ p.nb >= 2 => ~IsData(p.tpl[2]))}
 
 DataSection(tgtIdx) ==
@@ -157,7 +159,12 @@ MkShape(p) ==
    seh |-> IF p.fmt = "pe" THEN SetToSeq({i \in {1, p.nb} : ~IsData(p.tpl[i])}) ELSE <<>>,
    sections |-> <<[name |-> ".text",
                    blocks |-> [i \in 1..p.nb |->
-                       MkBlock(i, p.nb, p.tpl[i], p.tgt, p.layout, i \in p.es, p.am, p.annAt, p.cl, i \in p.ns, p.al, p.ld)]]>>
+                       MkBlock(i, p.nb, p.tpl[i], p.tgt, p.layout, i \in p.es, p.am, p.annAt,
+                               \* "proc_first": only the first code block (in address order) is a procedure
+                               IF p.cl = "proc_first"
+                               THEN (IF ~IsData(p.tpl[i]) /\ \A j \in 1..(i - 1) : IsData(p.tpl[j]) THEN "proc_each" ELSE "none")
+                               ELSE p.cl,
+                               i \in p.ns, p.al, p.ld)]]>>
                 \o (IF p.xd THEN <<DataSection(p.tgt)>> ELSE <<>>)]
 
 (***************************************************************************)
